@@ -30,6 +30,7 @@ import (
 
 	"github.com/bandprotocol/chain/v3/pkg/tss"
 	bandtsstypes "github.com/bandprotocol/chain/v3/x/bandtss/types"
+	oracletypes "github.com/bandprotocol/chain/v3/x/oracle/types"
 	tunneltypes "github.com/bandprotocol/chain/v3/x/tunnel/types"
 
 	"verif/harness/gen"
@@ -178,6 +179,19 @@ func (w *world) declaredSigner(m sdk.Msg) (a *sim.Account, parses bool) {
 	return w.acct(sdk.AccAddress(signers[0]).String()), true
 }
 
+func (w *world) declaredAddr(m sdk.Msg) (addr string, parses bool) {
+	defer func() {
+		if r := recover(); r != nil {
+			addr, parses = "", false
+		}
+	}()
+	signers, _, err := w.ch.App.AppCodec().GetMsgV1Signers(m)
+	if err != nil || len(signers) != 1 {
+		return "", false
+	}
+	return sdk.AccAddress(signers[0]).String(), true
+}
+
 // sign builds a SIGN_MODE_DIRECT transaction. anteOK says whether the ante handler is expected to let it through
 // (only then the signer's sequence advances).
 func (w *world) sign(signer *sim.Account, anteOK bool, msgs ...sdk.Msg) (bz []byte, err error) {
@@ -246,7 +260,11 @@ func runAdv(c advCase) *pbt.Verdict {
 		v.Failf("harness", "sim.New: %v", err)
 		return v
 	}
-	defer ch.Close()
+	defer func() {
+		if !w.hung { // a chain whose FinalizeBlock never returned is still in use by that goroutine: leak it
+			ch.Close()
+		}
+	}()
 	w.ch, w.u, w.ghost = ch, ch.Users, sim.NewAccount("ghost")
 	if !w.setup() {
 		return v
@@ -321,7 +339,9 @@ func runAdv(c advCase) *pbt.Verdict {
 						pid = 1
 					}
 					pid += w.propsInBlock
-					w.propsInBlock++
+					if auth, parses := w.declaredAddr(msg); !meta.vbFail && parses && auth == sim.GovAuthority() {
+						w.propsInBlock++ // (a submission gov is going to refuse does not consume a proposal id)
+					}
 					meta.pid = pid
 					meta.msg = msg
 					// gov runs ValidateBasic of the inner message when the proposal is submitted (in the msg server, after ante)
@@ -351,7 +371,15 @@ func runAdv(c advCase) *pbt.Verdict {
 				addTx(signer, anteOK, meta, msg)
 			}
 		}
-		res, err := ch.Block(txs, dt)
+		height := ch.Height + 1
+		res, err, hung := w.blockWithWatchdog(txs, dt)
+		if hung {
+			w.hung = true
+			sig, what := w.classifyHang()
+			v.Failf(sig, "history block %d (height %d, dt %ds): FinalizeBlock did not return within %s (the node cannot produce the block); %s; messages of the block: %s",
+				bi, height, blk.Dt, hangLimit, what, strings.Join(msgList(metas), ", "))
+			return v
+		}
 		if err != nil {
 			var list []string
 			for _, m := range metas {
@@ -492,7 +520,12 @@ const (
 	// bandtss FeePerSigner / tunnel BasePacketFee amounts near 2^256 (accepted by Params.Validate) overflow math.Int in
 	// GetSigningFee / HasEnoughFundToCreatePacket, which the tunnel end blocker calls outside its recovering cache context
 	sigFeeOverflow = "C02/tunnel-endblock-fee-overflow"
+	// oracle SamplingTryCount has no upper bound in Params.Validate; MsgRequestData repeats the validator sampling that
+	// many times without charging gas for it, so a large value makes FinalizeBlock run for hours to forever
+	sigSamplingHang = "C02/sampling-try-count-hang"
 )
+
+func avoided(sig string) bool { return avoid[sig] || pbt.IsExcluded("C02", sig) }
 
 func maxIntBits(m any) int {
 	var ls []leaf
@@ -510,7 +543,10 @@ func maxIntBits(m any) int {
 
 // inAvoidedRegion: the (mutated) authority-only message would take the chain into the region of a reported finding.
 func (w *world) inAvoidedRegion(m sdk.Msg) bool {
-	if avoid[sigFeeOverflow] {
+	if mm, ok := m.(*oracletypes.MsgUpdateParams); ok && avoided(sigSamplingHang) && mm.Params.SamplingTryCount > 1000 {
+		return true
+	}
+	if avoided(sigFeeOverflow) {
 		switch mm := m.(type) {
 		case *bandtsstypes.MsgUpdateParams:
 			if maxIntBits(&mm.Params) > 128 {
@@ -523,6 +559,60 @@ func (w *world) inAvoidedRegion(m sdk.Msg) bool {
 		}
 	}
 	return false
+}
+
+var hangLimit = func() time.Duration {
+	if s, err := time.ParseDuration(os.Getenv("VERIF_C02ADV_HANG_LIMIT")); err == nil && s > 0 {
+		return s
+	}
+	return 60 * time.Second
+}()
+
+// blockWithWatchdog executes the block; a FinalizeBlock that does not return within hangLimit (thousands of times the
+// normal duration of a block) is reported as a hang. The wall clock is used for nothing else.
+func (w *world) blockWithWatchdog(txs [][]byte, dt time.Duration) (res *sim.BlockResult, err error, hung bool) {
+	type out struct {
+		res *sim.BlockResult
+		err error
+	}
+	done := make(chan out, 1)
+	go func() {
+		r, e := w.ch.Block(txs, dt)
+		done <- out{r, e}
+	}()
+	select {
+	case o := <-done:
+		return o.res, o.err, false
+	case <-time.After(hangLimit):
+		return nil, nil, true
+	}
+}
+
+func msgList(metas []*txMeta) []string {
+	var list []string
+	for _, m := range metas {
+		if m.ti < 0 {
+			continue
+		}
+		list = append(list, shortName(m.url)+"{"+strings.Join(m.descs, ";")+"}")
+	}
+	return list
+}
+
+// samplingTryLimit: a try count above this makes every MsgRequestData loop for seconds to forever
+const samplingTryLimit = 1_000_000
+
+func (w *world) classifyHang() (sig, what string) {
+	// (the committed state must not be read here: the application is still executing the block)
+	if w.samplingTry > samplingTryLimit || int64(w.samplingTry) < 0 {
+		return sigSamplingHang, fmt.Sprintf("oracle SamplingTryCount=%d", w.samplingTry)
+	}
+	for _, pid := range sortedPids(w.propMsgs) {
+		if mm, ok := w.propMsgs[pid].(*oracletypes.MsgUpdateParams); ok && mm.Params.SamplingTryCount > samplingTryLimit {
+			return sigSamplingHang, fmt.Sprintf("proposal %d sets oracle SamplingTryCount=%d", pid, mm.Params.SamplingTryCount)
+		}
+	}
+	return "C02/finalize-hang", "unclassified"
 }
 
 // classifyFailure attributes a block that could not be finalized to a known root cause, else C02/finalize-error.
